@@ -80,6 +80,13 @@ check(
     "solver-driven bounded-exhaustive enumeration of operation histories against the real code (selectors only)",
     "DESIGN.md §5 C14",
 )
+check(
+    "C18",
+    "Bounded-exhaustive, solver-driven (the weakest level in this design, stated as such): a finite pool of ~57 instances covering every value kind the property lists (non-finite floats, -0.0, Decimals, QNames with quotes, bytes, date/time types, tuples/sets/nested collections, attribute maps, hostile strings, nested and inner classes, an enum nested in a class, generics) x 3 variable names; the pool index is a symbolic selector that CrossHair/z3 enumerate, each path renders with the real PycodeSerializer, compiles and executes the source in a fresh namespace and compares the bound variable with the original (NaN-, sign- and container-type-aware). Nothing is value-symbolic because compile() is a C boundary.",
+    "Trusted: CPython's compile/exec. Outside: instances not in the pool.",
+    "solver-driven exhaustive enumeration of a finite instance pool; real render + exec per path",
+    "DESIGN.md §5 C18",
+)
 for _p, _r in {
     "C07": "check not built yet", "C08": "check not built yet", "C09": "check not built yet", "C10": "check not built yet",
     "C11": "check not built yet", "C12": "check not built yet", "C14": "check not built yet", "C15": "check not built yet",
